@@ -231,6 +231,19 @@ def has_nonascii(c):
     return any(ord(ch) > 127 for ch in json.dumps(c_jsonable(c), ensure_ascii=False))
 
 
+def split_family(rng, k):
+    """the same declarations given to cdef() in differently split calls: at a newline, with an empty source in
+    between, in one call or in several -- all different inputs (different lists of sources)"""
+    d = ["typedef int sp%d_a_t;" % k, "typedef struct { int x; } sp%d_b_t;" % k, "int sp%d_f(int);" % k]
+    splits = [[d[0], d[1], d[2]], [d[0] + "\n" + d[1], d[2]], [d[0], d[1] + "\n" + d[2]], ["\n".join(d)],
+              [d[0], "", d[1] + "\n" + d[2]], [d[0] + "\n", d[1] + "\n" + d[2]], [d[0] + "\n" + d[1] + "\n", d[2]],
+              [d[0] + "\n" + d[1], "", d[2]]]
+    kw = {} if rng.random() < 0.5 else {"libraries": ["m"], "k_a": rand_value(rng, 1)}
+    pre = rng.choice(["", "/* split */\n"])
+    return [{"cdefs": sp, "include": None, "include_at": 0, "preamble": pre, "kwds": kw, "tag": "", "generic": False}
+            for sp in rng.sample(splits, 5 if k else len(splits))]
+
+
 def mutate(rng, c):
     c = json.loads(json.dumps(c_jsonable(c)))
     c = c_fromjson(c)
@@ -316,6 +329,8 @@ def run(ctx):
     futs = [("MC_Flatten(values,depth=%d)" % (1 if quick else 2), "mc",
              pool.submit(core.tlc, "MC_Flatten", cfg_text=mc_cfg(depth=1 if quick else 2), workers=4 if quick else 8,
                          timeout=3000)),
+            ("MC_Flatten(keys,sources over {newline,a})", "mc",
+             pool.submit(tlc_light, "MC_Flatten", cfg_text=mc_cfg("keys", alpha=[10, 97], maxsrc=2 if quick else 3), workers=2)),
             ("MC_Flatten(keys)", "mc", pool.submit(core.tlc, "MC_Flatten", cfg_text=mc_cfg("keys", alpha=[48, 100, 120], maxsrc=1 if quick else 2),
                                                    workers=4, timeout=3000)),
             ("oracle dump", "dump", pool.submit(core.tlc, "MC_Flatten", cfg_text=mc_cfg("dump", depth=1), workers=1,
@@ -327,6 +342,8 @@ def run(ctx):
         "bytes", alpha=BYTES_ALPHA if quick else BYTES_ALPHA + [128512, 117, 85, 48], maxstr=4), workers=2)))
     for v in ("nolen", "notag", "nosort"):
         futs.append(("sanity:" + v, "sanity", pool.submit(tlc_light, "MC_Flatten", cfg_text=mc_cfg(variant=v))))
+    futs.append(("sanity:newline-joined", "sanity", pool.submit(tlc_light, "MC_Flatten", cfg_text=mc_cfg(
+        "keys", alpha=[10, 97], maxsrc=2, variant="newline-joined"))))
     futs.append(("sanity:backslashreplace", "sanity", pool.submit(tlc_light, "MC_Flatten", cfg_text=mc_cfg(
         "bytes", alpha=BYTES_ALPHA, maxstr=4, variant="backslashreplace"))))
 
@@ -351,6 +368,8 @@ def run(ctx):
     # ---------------------------------------------------------------- module names in sub-processes
     ncases = 50 if quick else 1000
     cases = []
+    for k in range(1 if quick else 12):
+        cases += split_family(rng, k)
     while len(cases) < ncases:
         if cases and rng.random() < 0.4:
             cases.append(mutate(rng, rng.choice(cases)))
